@@ -2,6 +2,7 @@ import PdshVerif.Base.Hex
 import PdshVerif.Dsh.Exit
 import PdshVerif.Dsh.ExitSpec
 import PdshVerif.Dsh.ExitKill
+import PdshVerif.Dsh.ExitRefuse
 import Driver.Util
 
 /-!
@@ -14,6 +15,8 @@ import Driver.Util
           (`w...` = the value of rcmd_destroy is exec_destroy of that wait status)
       xd e<n> | xd s<n> | xd null                -> "<ret>"
       cmd S K HEX                                -> "<hex of the command string handed to the transport>"  (`sentCommand`)
+      refusals                                   -> "<comma separated names of the refusal paths of the model>"  (`Refusal.all`)
+      outcome NAME                               -> "status <n>" | "unknown"   (`statusOfName`: a refusal, an information-only ending, started)
       ksched S K CMDTMO SCRIPT[;SCRIPT...] EVENTS -> "exit <n> how=<mid:i|tear:i|ret> sig=<i,j..|-> ph=<one letter per target> rest=<k>"
                                                    | "running ph=..." | "invalid <k> ph=..."
           the -k transition system `Kill.exec` (Dsh/ExitKill.lean) on an explicit schedule.  EVENTS = comma separated
@@ -138,6 +141,11 @@ def stepModel (fx : Fixes) (line : String) : String :=
     match ((scripts.splitOn ";").filter (· ≠ "")).mapM (parseTarget fx (tmo.toInt?.getD 0)) with
     | some ts => runSched fx { S := s ≠ "0", k := k ≠ "0" } ts (Kill.init ts) ((evs.splitOn ",").filter (· ≠ ""))
     | none => "bad-op"
+  | ["refusals"] => ",".intercalate (Refusal.all.map Refusal.name)
+  | ["outcome", name] =>
+    match statusOfName name with
+    | some n => s!"status {n}"
+    | none => "unknown"
   | ["cmd", s, k, hx] =>
     match Hex.decodeToChars hx with
     | some c => Hex.encodeChars (sentCommand { S := s ≠ "0", k := k ≠ "0" } c)
